@@ -61,12 +61,12 @@ type c17Limits struct {
 
 func c17LimitsFor(tier string) c17Limits {
 	if tier == "thorough" {
-		return c17Limits{exhaustive: 12000, sampled: 1500, randomPlans: 60, genPerFmt: 60, mutants: 400, largeSizes: []int{70000, 140000, 200000}, pairs: 300, pairsExhaustive: 260}
+		return c17Limits{exhaustive: 12000, sampled: 1500, randomPlans: 100, genPerFmt: 160, mutants: 1200, largeSizes: []int{70000, 140000, 200000, 1300000}, pairs: 300, pairsExhaustive: 260}
 	}
 	if tier == "smoke" { // determinism self-test only
 		return c17Limits{exhaustive: 1200, sampled: 40, randomPlans: 4, genPerFmt: 2, mutants: 12}
 	}
-	return c17Limits{exhaustive: 6000, sampled: 300, randomPlans: 10, genPerFmt: 8, mutants: 40, largeSizes: []int{70000}, pairs: 12}
+	return c17Limits{exhaustive: 6000, sampled: 300, randomPlans: 10, genPerFmt: 8, mutants: 40, largeSizes: []int{70000, 300000}, pairs: 12}
 }
 
 // structureOffsets returns split offsets aligned to the format's structure.
@@ -144,6 +144,14 @@ func plansFor(d corpus.Doc, lim c17Limits, r *prng.R) []simio.ReadPlan {
 		for i := 0; i < lim.sampled; i++ {
 			ps = append(ps, simio.ReadPlan{Name: "split-sampled", Chunks: []int{r.Intn(n + 1)}})
 		}
+	}
+	if n > 250000 { // very large document: boundary and sampled splits above, a few granularities, nothing else
+		ps = append(ps, simio.ReadPlan{Name: "half", Half: true}, simio.ReadPlan{Name: "mtu", Rest: 4096}, simio.ReadPlan{Name: "mtu", Rest: 4097},
+			simio.ReadPlan{Name: "mtu", Rest: 1023}, simio.ReadPlan{Name: "mtu", Rest: 65536}, simio.ReadPlan{Name: "whole+eof", EOFWithData: true})
+		if n < 400000 {
+			ps = append(ps, simio.ReadPlan{Name: "one-byte", Rest: 1})
+		}
+		return ps
 	}
 	// 1b. split, then one lone byte, then the rest (a CR | LF | rest pattern)
 	offs := structureOffsets(d.Format, d.Data)
